@@ -3,7 +3,8 @@
    state, so the statements below quantify over ALL states (and all fault schedules).  Truthfulness
    for arbitrary states is C03 (clean => intact, counts) and C02 (Repair writes only data matching
    the recorded hashes), both stated for every state; restated here for the record. *)
-From Gopar Require Import Model.Base Model.CRC Model.GoPath Model.FS Model.Par2 Model.Par1 Proofs.Par2Facts Proofs.Par2Verify Proofs.Par2Faults Proofs.Par1Facts Proofs.Par1Safety.
+From Gopar Require Import Model.Base Model.CRC Model.GoPath Model.FS Model.Par2 Model.Par1 Proofs.Par2Facts Proofs.Par2Verify Proofs.Par2Faults Proofs.Par1Facts Proofs.Par1Safety Proofs.Par2Clean Proofs.Par2Ignore Proofs.Par1Volumes.
+From Coq Require Import List Permutation. Import ListNotations.
 Open Scope N_scope.
 
 Theorem C13_verify_no_panic : forall md5 ix st p, fst (par2_verify md5 ix st) <> Panic p.
@@ -52,3 +53,30 @@ Print Assumptions C13_par1_verify_no_panic.
 Theorem C13_par1_repair_no_panic : forall md5 ix dbl st p, fst (fst (par1_repair md5 ix dbl st)) <> Panic p.
 Proof. exact par1_repair_no_panic. Qed.
 Print Assumptions C13_par1_repair_no_panic.
+
+(* GARBAGE BESIDE THE INDEX IS IGNORED (PAR2): a file matching <base>.*.par2 in which no packet of the set
+   parses at any offset (garbage, an emptied or torn recovery file, a recovery file of another set) changes
+   nothing: the whole loaded state - hence Verify's counts and what Repair does - is the same as without it *)
+Theorem C13_unparsable_recovery_file_ignored : forall md5 ix q fs fs' b,
+  (forall p, p <> q -> fs_lookup fs' p = fs_lookup fs p /\ is_dir fs' p = is_dir fs p) ->
+  fs_lookup fs q = None -> fs_lookup fs' q = Some b ->
+  Permutation (map fst fs') (q :: map fst fs) ->
+  vol_pattern (strip_ext ix) q = true ->
+  q <> ix ->
+  (forall d st1, new_decoder md5 ix (io_init fs []) = (Ok d, st1) ->
+     nothing_parses md5 (d_setid d) b /\
+     forall info, In info (d_rec d) -> file_path ix (di_name info) <> q) ->
+  fst (load_all md5 ix (io_init fs' [])) = fst (load_all md5 ix (io_init fs [])).
+Proof. exact load_all_ignores_unparsable_recovery_file. Qed.
+Print Assumptions C13_unparsable_recovery_file_ignored.
+
+(* ... and an unparsable PAR1 volume likewise (Props/C04.v, restated) *)
+Theorem C13_par1_unparsable_volume_ignored : forall md5 ix k fs fs' b x,
+  (forall p, p <> volume_path ix k -> fs_lookup fs' p = fs_lookup fs p /\ is_dir fs' p = is_dir fs p) ->
+  fs_lookup fs (volume_path ix k) = None -> is_dir fs (volume_path ix k) = false ->
+  fs_lookup fs' (volume_path ix k) = Some b -> read_volume md5 b = Err x ->
+  (forall bi v e, fs_lookup fs ix = Some bi -> read_volume md5 bi = Ok v -> In e (v_entries v) -> saved e = true ->
+     join2 (dir ix) (e_name e) <> volume_path ix k) ->
+  fst (p1_load md5 ix (io_init fs' [])) = fst (p1_load md5 ix (io_init fs [])).
+Proof. exact p1_load_ignores_unparsable_volume. Qed.
+Print Assumptions C13_par1_unparsable_volume_ignored.
